@@ -208,7 +208,7 @@ pub fn run(ctx: &mut Ctx) -> (&'static str, String, bool) {
         ctx.violation("C13/builtins-not-distinct", "two built-in names decode to the same vehicle", json!({"values": vals}));
     }
     for b in [[0u8, 0, 0, 0], *b"XFG\0", *b"XFG1", [1, 0, 0, 0], *b"ZZZ\0", *b"xfg\0", [0x4d, 0xc5, 0x03, 0x00]] {
-        ctx.sample(json!({"bytes": hex(&b), "shape": format!("{:?}", classify(b)), "decoded": format!("{:?}", decode(b).map_err(|_| "Err"))}));
+        ctx.sample(json!({"bytes": hex(&b), "shape": format!("{:?}", classify(b)), "decoded": format!("{:?}", guarded(|| decode(b).map_err(|_| "Err")))}));
     }
     ctx.assume("the InSim v9 rule as stated in the property: 3 ASCII alphanumerics + NUL = built-in shape; all zero = unknown; else mod id = little-endian u32");
     (
